@@ -22,7 +22,15 @@ where
 {
     match prop {
         "C01" => gen_sig::c01::<CS>(h),
-        "C02" => gen_sig::c02::<CS>(h),
+        "C02" => {
+            gen_sig::c02::<CS>(h);
+            use zkryptium::bbsplus::ciphersuites::{Bls12381Sha256, Bls12381Shake256};
+            if h.suite == "sha" {
+                gen_sig::cross_suite_sig::<Bls12381Sha256, Bls12381Shake256>(h)
+            } else {
+                gen_sig::cross_suite_sig::<Bls12381Shake256, Bls12381Sha256>(h)
+            }
+        }
         "C12" => gen_sig::c12::<CS>(h),
         "C03" => gen_proof::c03::<CS>(h),
         "C04" => gen_proof::c04::<CS>(h),
